@@ -446,6 +446,15 @@ func cmdCheck(args []string) int {
 				ex[o.Name] = fmt.Sprintf("not claimed: %s by %s in %.1fs when the claim was recorded", o.Result, o.Solver, o.Secs)
 			}
 		}
+		// variable signatures of the functions under contract (for tolerance to renamed locals)
+		lb := loadLocalsBaseline()
+		for _, un := range units {
+			if un.fn != nil && len(un.errs) == 0 {
+				lb[un.name] = localsSignature(un.fn)
+			}
+		}
+		ldata, _ := json.MarshalIndent(lb, "", " ")
+		os.WriteFile(localsBaselinePath(), append(ldata, '\n'), 0o644)
 		excludedAll[*prop] = ex
 		data, _ = json.MarshalIndent(excludedAll, "", " ")
 		os.WriteFile(filepath.Join(verifRoot, "contracts", "excluded.json"), append(data, '\n'), 0o644)
